@@ -155,7 +155,7 @@ def bounded(tier, seed):
     failures += _laws(chain)
     cases += len(chain) ** 2
     # suffixes that hold digits: compared as text, whatever they look like (a 'natural' order of release numbers mixed with text order is not transitive)
-    digits = ['3.0', '3.0rc', '3.0rc1', '3.0rc01', '3.0rc9', '3.0rc10', '3.0rc10a', '3.0rc5b', '3.0rc1x', '3.0-1', '3.0-10', '3.0-9', '3.0.0rc9', '3.0 2']
+    digits = ['3.0', '3.0rc', '3.0rc1', '3.0rc01', '3.0rc9', '3.0rc10', '3.0rc10a', '3.0rc5b', '3.0rc1x', '3.0-1', '3.0-10', '3.0-9', '3.0.0rc9', '3.0 2', '3.0~rc1', '3.0~', '3.0+1', '3.0a~', '3.0.0~rc1', '3.0_x']
     failures += _laws(digits)
     cases += len(digits) ** 3
     # pairs exhaustively in blocks, triples inside each block
